@@ -3,6 +3,7 @@
 (* value the DAG defines, in place and after the build directory was moved.        *)
 (* events: [ev |-> "Config", kind, deps, elibs, ecall (sequences indexed by lib)]   *)
 (*         [ev |-> "Build", exit]  [ev |-> "Run", exit, out]  [ev |-> "Move"]        *)
+(*         [ev |-> "RunRaw", exit, out, want]  [ev |-> "Symbols", want, defined]     *)
 EXTENDS Link, IOUtils
 Traces == JsonDeserialize(IOEnv.TRACE_FILE)
 VARIABLES t, l, built
@@ -25,6 +26,14 @@ TraceNext ==
        [] e.ev = "Run" -> /\ Need(e.exit = 0, "ProgramRunsWithoutEnvironmentSetup", e.exit)
                           /\ Need(e.out = ExpectedOutput(uses, elibs, ecall), "ProgramPrintsTheDefinedValue", e.out)
                           /\ UNCHANGED <<built, kind, deps, uses, elibs, ecall>>
+       \* whole-archive cases (outside the library-DAG model): the harness states what the program must
+       \* print and which symbols the linked file must define
+       [] e.ev = "RunRaw" -> /\ Need(e.exit = 0, "ProgramRunsWithoutEnvironmentSetup", e.exit)
+                             /\ Need(e.out = e.want, "ProgramPrintsTheDefinedValue", e.out)
+                             /\ UNCHANGED <<built, kind, deps, uses, elibs, ecall>>
+       [] e.ev = "Symbols" -> /\ Need(ToSet(e.want) \subseteq ToSet(e.defined), "WholeArchiveKeepsEveryObject",
+                                      ToSet(e.want) \ ToSet(e.defined))
+                              /\ UNCHANGED <<built, kind, deps, uses, elibs, ecall>>
        [] e.ev = "Move" -> UNCHANGED <<built, kind, deps, uses, elibs, ecall>>
   /\ l' = l + 1 /\ UNCHANGED t
 TraceSpec == TraceInit /\ [][TraceNext]_tvars
